@@ -193,7 +193,7 @@ impl Workload for PersistWorkload {
     fn execute(&self, c: &PersistCase, ctx: &mut Ctx) -> Result<Outcome, HarnessError> {
         let dir = &ctx.dir;
         for s in c.samples.iter().chain(c.samples2.iter()) {
-            dir.write(&s.file(), s.fasta().as_bytes());
+            dir.write(&s.file(), &s.bytes());
         }
         for (n, d) in &c.extra {
             dir.write(n, d.as_bytes());
